@@ -24,6 +24,8 @@ class Runaway(BaseException):
 
 #: stack of active execution contexts (nested usim.run share the innermost context)
 CURRENT = []
+#: scheduling-point callback used by the controlled thread scheduler
+THREAD_HOOK = [None]
 
 
 class VLoop(Loop):
@@ -56,7 +58,10 @@ class VLoop(Loop):
     def _run_coroutine(self, target, signal=None):
         ctx = self.ctx
         if ctx is None:
-            return super()._run_coroutine(target, signal)
+            super()._run_coroutine(target, signal)
+            if THREAD_HOOK[0] is not None:
+                THREAD_HOOK[0]('activation')       # scheduling point of the controlled thread scheduler (C15)
+            return
         ctx.pre_activation(self, target, signal)
         super()._run_coroutine(target, signal)
         ctx.post_activation(self, target, signal)
